@@ -181,6 +181,9 @@ func fmtProgram(c *Case, prov string) (string, []byte, []string) {
 	f := hx.AwkString(c.Fmt.Bytes())
 	a := callArgs(b.add(c.Args))
 	body := fmt.Sprintf("  printf %s%s\n  printf \"\\001\"\n  x = sprintf(%s%s)\n  printf \"%%s\", x\n", f, a, f, a)
+	if len(c.Cf) > 0 { // a call recorded while CONVFMT was not the default
+		body = "  CONVFMT = " + hx.AwkString(c.Cf.Bytes()) + "\n" + body
+	}
 	return b.program(body)
 }
 
@@ -261,6 +264,9 @@ func seqProgram(c *Case, prov string) (string, []byte, []string) {
 	var sb strings.Builder
 	for i := range c.Calls {
 		cl := &c.Calls[i]
+		if len(cl.Cf) > 0 {
+			sb.WriteString("  CONVFMT = " + hx.AwkString(cl.Cf.Bytes()) + "\n")
+		}
 		sb.WriteString("  printf \"%s\\001\", sprintf(" + hx.AwkString(cl.Fmt.Bytes()) + callArgs(b.add(cl.Args)) + ")\n")
 	}
 	return b.program(sb.String())
